@@ -55,10 +55,12 @@ type (
 )
 
 type Clause struct {
-	Label string
-	E     Expr
-	Text  string
-	Line  int
+	Label  string
+	E      Expr
+	Text   string
+	Line   int
+	Except Expr   // known-finding region: the clause is claimed only outside it
+	Tag    string // known-finding tag (D3, ...)
 }
 
 type Param struct {
@@ -463,7 +465,7 @@ var clauseKW = map[string]bool{
 	"spec": true, "func": true, "lemma": true, "guarded": true,
 	"requires": true, "ensures": true, "modifies": true, "ghost": true, "loop": true,
 	"invariant": true, "decreases": true, "unfold": true, "inline": true, "trusted": true,
-	"pure": true, "atomic": true, "param": true, "induction": true, "havoc": true, "nopanic": true, "unroll": true,
+	"pure": true, "atomic": true, "param": true, "induction": true, "havoc": true, "nopanic": true, "unroll": true, "known-finding": true,
 }
 
 type rawClause struct {
@@ -494,7 +496,7 @@ func ParseContractFile(path string, src []byte, ps *PkgSpec) error {
 			}
 		}
 		first := s
-		if j := strings.IndexAny(s, " \t(:"); j >= 0 {
+		if j := strings.IndexAny(s, " \t(:["); j >= 0 {
 			first = s[:j]
 		}
 		if clauseKW[first] {
@@ -637,6 +639,37 @@ func ParseContractFile(path string, src []byte, ps *PkgSpec) error {
 			}
 			for _, f := range strings.Split(rc.text, ",") {
 				curLoop.Havoc = append(curLoop.Havoc, strings.TrimSpace(f))
+			}
+		case "known-finding":
+			// known-finding [label] TAG: region-expression   (attaches to the ensures clause with that label)
+			if cur == nil {
+				return fmt.Errorf("%s:%d: known-finding outside func", path, rc.line)
+			}
+			text := strings.TrimSpace(rc.text)
+			if !strings.HasPrefix(text, "[") || !strings.Contains(text, "]") {
+				return fmt.Errorf("%s:%d: known-finding [label] TAG: region", path, rc.line)
+			}
+			j := strings.Index(text, "]")
+			label := strings.TrimSpace(text[1:j])
+			rest := strings.TrimSpace(text[j+1:])
+			col := strings.Index(rest, ":")
+			if col < 0 {
+				return fmt.Errorf("%s:%d: known-finding [label] TAG: region", path, rc.line)
+			}
+			tag := strings.TrimSpace(rest[:col])
+			ex, err := ParseExpr(rest[col+1:])
+			if err != nil {
+				return fmt.Errorf("%s:%d: %v", path, rc.line, err)
+			}
+			found := false
+			for i := range cur.Ensures {
+				if cur.Ensures[i].Label == label {
+					cur.Ensures[i].Except, cur.Ensures[i].Tag = ex, tag
+					found = true
+				}
+			}
+			if !found {
+				return fmt.Errorf("%s:%d: known-finding: no ensures clause labelled %q", path, rc.line, label)
 			}
 		case "unroll":
 			if curLoop == nil {
